@@ -204,7 +204,7 @@ def _run_c_case(pid, tier, c, r, h, variant, out, sweep, count_state):
         out.count("states")
     mode, vecs = values.value_space(leaves, pycodec.vmax(tier))
     inputs = [(h.image(r, leaves, v), ("value", v)) for v in vecs]
-    if sweep and row["size"] <= copt.sweep_limit(tier):
+    if sweep and row["size"] <= copt.sweep_limit(tier) and copt.full_sweeps_for(c, tier):
         for img, li, p, b, bg in sweeps.storage_sweep(row, leaves):
             inputs.append((img, ("storage", li, p, b, bg)))
         out.cls("storage_swept:" + variant)
@@ -338,7 +338,7 @@ def main(pid, tier):
              "backgrounds) on standard mode and on -O little/big for traditional states, Python out-of-range integers v+k*2^n, negative for "
              "unsigned; non-trivial = an input with one leaf overdriven",
         exhaustive=True,
-        bound="SING(%s) u COMB(2) u TREE(%d) u HOMONYMS; full sweeps for structs <= %d bytes" % (tier, 4 if tier == "quick" else 5, copt.sweep_limit(tier)),
+        bound="SING(%s) u COMB(2) u TREE(%d) u HOMONYMS; full sweeps for structs <= %d bytes (thorough: on the states of the quick space)" % (tier, 4 if tier == "quick" else 5, copt.sweep_limit(tier)),
     )
     return finish(pid, tier, acc, cov, t0,
                   assumptions=["reference model bpmc/ref.py", "guard pages + ASan/UBSan observe every out-of-bounds access of the executed paths",
